@@ -219,7 +219,8 @@ def check_decorations(prog, rep):
             elif sorted(x or "?" for x in drawn) != want:
                 bad.append("with %s the path draws %s" % (tested, drawn))
     rep.check(not bad and n_paths >= 4, "R14.2", "decoration:both",
-              "draw_decorations must draw exactly the strikethrough and the underline rectangle, each iff its colour is set, each with its own colour: %s" % "; ".join(sorted(set(bad))[:3]), at=dd.span, fn=dd.path)
+              "draw_decorations must draw exactly the strikethrough and the underline rectangle, each iff its colour is set, each with its own colour: %s" % "; ".join(sorted(set(bad))[:3]), at=dd.span, fn=dd.path,
+              status="undecided" if any(x.startswith("cannot summarise") for x in bad) else "refuted")
     # R14.2 must-pass-through: every successful path of draw_string / draw_whitespace that advanced the position has
     # called draw_decorations(width = advance, position, target); the only paths without it are guarded by "no advance"
     TR = "embedded_graphics::text::renderer::TextRenderer"
